@@ -234,7 +234,7 @@ func (msg RtmpMsg) IsVideoKeyNalu() bool {
 }
 
 func (msg RtmpMsg) IsAacSeqHeader() bool {
-	return msg.Header.MsgTypeId == RtmpTypeIdAudio && msg.AudioCodecId() == RtmpSoundFormatAac && msg.Payload[1] == RtmpAacPacketTypeSeqHeader
+	return msg.Header.MsgTypeId == RtmpTypeIdAudio && len(msg.Payload) >= 2 && msg.AudioCodecId() == RtmpSoundFormatAac && msg.Payload[1] == RtmpAacPacketTypeSeqHeader
 }
 
 func (msg RtmpMsg) VideoCodecId() uint8 {
